@@ -128,14 +128,69 @@ fn check_cli_table(ctx: &mut Ctx, a: &Ast, text: &str) {
 /// deeper nesting than the enumerations reach: right- and left-nested chains over six names
 /// to depth 40 with the operators cycling from every offset, quantifier towers, if-towers
 /// and counting lists of up to 9 operands
-fn deep_family(ctx: &mut Ctx) {
+pub fn deep_asts() -> Vec<Ast> {
     let names = ["a", "b", "c", "d", "e", "f"];
     let term = |i: usize| if i % 7 == 3 { Ast::not(Ast::var(names[i % 6])) } else { Ast::var(names[i % 6]) };
+    let mut out = vec![];
+    for depth in 1..=40usize {
+        for off in 0..8usize {
+            // right-nested: t0 op (t1 op (t2 ...))
+            let mut r = term(depth + off);
+            for i in (0..depth).rev() {
+                r = Ast::bin(ALL_BINS[(i + off) % 8], term(i + off), r);
+            }
+            out.push(r);
+            // left-nested: ((t0 op t1) op t2) ...
+            let mut l = term(off);
+            for i in 0..depth {
+                l = Ast::bin(ALL_BINS[(i + off) % 8], l, term(i + off + 1));
+            }
+            out.push(l);
+        }
+    }
+    for depth in 1..=12usize {
+        // quantifier tower over a fixed 6-variable body
+        let mut body = Ast::bin(Bin::Xor, Ast::bin(Bin::And, Ast::var("a"), Ast::var("b")), Ast::bin(Bin::Or, Ast::var("c"), Ast::bin(Bin::Iff, Ast::var("d"), Ast::bin(Bin::Implies, Ast::var("e"), Ast::var("f")))));
+        for i in 0..depth {
+            body = Ast::q(i % 2 == 0, &[names[(i * 5) % 6]], body);
+        }
+        out.push(body);
+        // if-tower
+        let mut t = Ast::var("f");
+        for i in 0..depth {
+            t = if i % 2 == 0 { Ast::ite(term(i), t, term(i + 2)) } else { Ast::ite(term(i), term(i + 1), t) };
+        }
+        out.push(t);
+        // nested negations and fixed points
+        let mut n = Ast::bin(Bin::Or, Ast::var("X"), Ast::var("a"));
+        for i in 0..depth.min(8) {
+            n = if i % 2 == 0 { Ast::not(Ast::not(n)) } else { Ast::bin(Bin::And, n, Ast::bin(Bin::Or, Ast::var("X"), term(i))) };
+        }
+        out.push(Ast::fp("X", false, n));
+    }
+    for len in 5..=9usize {
+        for off in 0..6usize {
+            let l: Vec<Ast> = (0..len).map(|i| term(i * 5 + off)).collect();
+            for op in ALL_CMPS {
+                for n in [0usize, 1, len / 2, len - 1, len] {
+                    out.push(Ast::CC(op, l.clone(), n.to_string()));
+                }
+                out.push(Ast::CV(op, l[..len / 2].to_vec(), l[len / 2..].to_vec()));
+            }
+        }
+    }
+    out
+}
+
+/// deeper nesting than the enumerations reach: right- and left-nested chains over six names
+/// to depth 40 with the operators cycling from every offset, quantifier towers, if-towers
+/// and counting lists of up to 9 operands
+fn deep_family(ctx: &mut Ctx) {
     let mut idx = 0u64;
-    let mut go = |ctx: &mut Ctx, a: Ast| {
+    for a in deep_asts() {
         idx += 1;
         if !ctx.mine(idx) {
-            return;
+            continue;
         }
         for st in [refl::MINIMAL, refl::FULL] {
             let text = refl::pp(&a, st);
@@ -145,53 +200,6 @@ fn deep_family(ctx: &mut Ctx) {
             if check_text(ctx, TAG, &a, &text).is_some() {
                 ctx.distinct(&text);
                 ctx.count("deep_family_texts", 1);
-            }
-        }
-    };
-    for depth in 1..=40usize {
-        for off in 0..8usize {
-            // right-nested: t0 op (t1 op (t2 ...))
-            let mut r = term(depth + off);
-            for i in (0..depth).rev() {
-                r = Ast::bin(ALL_BINS[(i + off) % 8], term(i + off), r);
-            }
-            go(ctx, r);
-            // left-nested: ((t0 op t1) op t2) ...
-            let mut l = term(off);
-            for i in 0..depth {
-                l = Ast::bin(ALL_BINS[(i + off) % 8], l, term(i + off + 1));
-            }
-            go(ctx, l);
-        }
-    }
-    for depth in 1..=12usize {
-        // quantifier tower over a fixed 6-variable body
-        let mut body = Ast::bin(Bin::Xor, Ast::bin(Bin::And, Ast::var("a"), Ast::var("b")), Ast::bin(Bin::Or, Ast::var("c"), Ast::bin(Bin::Iff, Ast::var("d"), Ast::bin(Bin::Implies, Ast::var("e"), Ast::var("f")))));
-        for i in 0..depth {
-            body = Ast::q(i % 2 == 0, &[names[(i * 5) % 6]], body);
-        }
-        go(ctx, body);
-        // if-tower
-        let mut t = Ast::var("f");
-        for i in 0..depth {
-            t = if i % 2 == 0 { Ast::ite(term(i), t, term(i + 2)) } else { Ast::ite(term(i), term(i + 1), t) };
-        }
-        go(ctx, t);
-        // nested negations and fixed points
-        let mut n = Ast::bin(Bin::Or, Ast::var("X"), Ast::var("a"));
-        for i in 0..depth.min(8) {
-            n = if i % 2 == 0 { Ast::not(Ast::not(n)) } else { Ast::bin(Bin::And, n, Ast::bin(Bin::Or, Ast::var("X"), term(i))) };
-        }
-        go(ctx, Ast::fp("X", false, n));
-    }
-    for len in 5..=9usize {
-        for off in 0..6usize {
-            let l: Vec<Ast> = (0..len).map(|i| term(i * 5 + off)).collect();
-            for op in ALL_CMPS {
-                for n in [0usize, 1, len / 2, len - 1, len] {
-                    go(ctx, Ast::CC(op, l.clone(), n.to_string()));
-                }
-                go(ctx, Ast::CV(op, l[..len / 2].to_vec(), l[len / 2..].to_vec()));
             }
         }
     }
